@@ -713,7 +713,8 @@ Qed.
 (* ================= the invariant along a well-formed history ================= *)
 (* phase of the history / converter state / receiver's in-progress table / the specification's reading *)
 Inductive R : phase -> e2s -> list (key * crcd) -> sstate -> Prop :=
-| R_not nw : R PNot (E2S false [] nw) [] (SS false [] None nw 0)      (* only time() calls so far *)
+| R_not rt rt' nw : same_set rt rt' ->                                  (* only time() and tags() calls so far *)
+    R PNot (E2S false [rt] nw) [] (SS false rt' None nw 0)
 | R_idle rt rt' nw st : same_set rt rt' -> R PIdle (E2S true [rt] nw) [] (SS true rt' None nw st)
 | R_in i tt rt tt' rt' nw t0 : same_set tt tt' -> same_set rt rt' ->
     R (PIn i) (E2S true [tt; rt] nw) [((i, None), rec0 i t0)] (SS true rt' (Some tt') nw t0)
@@ -776,7 +777,7 @@ Lemma op_step p o q s tbl ss : R p s tbl ss -> wf_step p o = Some q ->
   /\ forall2b match_fin (snd (snd (sstep ss o))) (norm_log (s2e_run tbl (snd (e2s_step s o)))) = true
   /\ R q (fst (e2s_step s o)) (s2e_tbl tbl (snd (e2s_step s o))) (fst (sstep ss o)).
 Proof.
-  intros HR Hw. destruct HR as [ nw | rt rt' nw st Hrt | i tt rt tt' rt' nw t0 Htt Hrt | i tt rt tt' rt' nw st Htt Hrt | s ss];
+  intros HR Hw. destruct HR as [ rt rt' nw Hrt | rt rt' nw st Hrt | i tt rt tt' rt' nw t0 Htt Hrt | i tt rt tt' rt' nw st Htt Hrt | s ss];
     destruct o as [ | | t | n g | j | j | k j ds r]; cbn [wf_step] in Hw; try discriminate Hw.
   - (* PNot, startTestRun: a time supplied before it is forgotten *)
     inversion Hw; subst q. repeat split.
@@ -785,7 +786,11 @@ Proof.
   - (* PNot, time: remembered *)
     inversion Hw; subst q. repeat split.
     + intros Y XM H. cbn. exact H.
-    + constructor.
+    + constructor. exact Hrt.
+  - (* PNot, tags: run-level tags *)
+    inversion Hw; subst q. repeat split.
+    + intros Y XM H. cbn. exact H.
+    + constructor. apply same_set_change. exact Hrt.
   - (* PNot, startTest: the run starts itself and keeps the time supplied so far *)
     inversion Hw; subst q. repeat split.
     + intros Y XM H. cbn [sstep e2s_step ensure_started started start_run tagstack now fst snd app ss_started ss_now].
@@ -794,7 +799,7 @@ Proof.
     + cbn [e2s_step ensure_started started start_run tagstack now fst snd app s2e_tbl]. cbn [s2e_step fst].
       unfold status_ev, now_ts. cbn [now].
       fold (status_e j Inprogress None (Some (match nw with Some t => t | None => wall end))). rewrite s2e_start_step.
-      cbn [fst s2e_tbl sstep ss_started ss_run_tags ss_now ss_ts current_tags tagstack]. constructor; apply same_set_refl.
+      cbn [fst s2e_tbl sstep ss_started ss_run_tags ss_now ss_ts current_tags tagstack]. constructor; exact Hrt.
   - (* PIdle, stopTestRun *)
     inversion Hw; subst q. repeat split.
     + intros Y XM H. cbn. exact H.
@@ -862,7 +867,7 @@ Qed.
 Theorem model_meets_spec : forall i, wf i = true -> spec_okb i (model i) = true.
 Proof.
   intros i W. unfold spec_okb. rewrite W. unfold alpha, model. cbn [o_mid o_fin a_mid a_fin].
-  unfold final_log, mid_stream. destruct (history_ok (hist i) PNot e2s0 [] ss0 (R_not None) W) as [-> ->]. reflexivity.
+  unfold final_log, mid_stream. destruct (history_ok (hist i) PNot e2s0 [] ss0 (R_not [] [] None (same_set_refl [])) W) as [-> ->]. reflexivity.
 Qed.
 
 Theorem spec_okb_sound : forall i o, spec_okb i o = true -> Spec i o.
@@ -875,12 +880,12 @@ Qed.
 Theorem stream_wf : forall h, wf_from PNot h = true ->
   Forall2 (fun x a => match_mid x a = true) (fst (expected ss0 h)) (group (mid_stream h)).
 Proof.
-  intros h W. apply forall2b_Forall2. exact (proj1 (history_ok h PNot e2s0 [] ss0 (R_not None) W)).
+  intros h W. apply forall2b_Forall2. exact (proj1 (history_ok h PNot e2s0 [] ss0 (R_not [] [] None (same_set_refl [])) W)).
 Qed.
 Theorem roundtrip : forall h, wf_from PNot h = true ->
   Forall2 (fun y l => match_fin y l = true) (snd (expected ss0 h)) (norm_log (final_log h)).
 Proof.
-  intros h W. apply forall2b_Forall2. exact (proj2 (history_ok h PNot e2s0 [] ss0 (R_not None) W)).
+  intros h W. apply forall2b_Forall2. exact (proj2 (history_ok h PNot e2s0 [] ss0 (R_not [] [] None (same_set_refl [])) W)).
 Qed.
 
 (* ================= time() before the run is started ================= *)
@@ -914,4 +919,61 @@ Theorem time_before_start ts t i h :
                  = XStartRun :: XStatus i Inprogress None wall :: xs).
 Proof.
   unfold mid_stream. rewrite !e2s_run_times, !expected_times. repeat split; eexists; cbn; reflexivity.
+Qed.
+
+(* ================= tags() before the run is started ================= *)
+Definition tags_ops (chs : list (list nat * list nat)) : list op := map (fun c => OTags (fst c) (snd c)) chs.
+(* what the calls make of the run-level tags: in the converter's TagContext ... *)
+Definition tags_after (chs : list (list nat * list nat)) (c : list nat) : list nat :=
+  fold_left (fun c ch => change_tags c (fst ch) (snd ch)) chs c.
+(* ... and read off the history: added, then removed, call by call *)
+Definition tags_wanted (chs : list (list nat * list nat)) (c : list nat) : list nat :=
+  fold_left (fun c ch => apply_tags c (fst ch) (snd ch)) chs c.
+
+Lemma e2s_run_tags chs : forall b c nw h,
+  e2s_run (E2S b [c] nw) (tags_ops chs ++ h) = e2s_run (E2S b [tags_after chs c] nw) h.
+Proof.
+  induction chs as [|ch chs IH]; intros b c nw h; [reflexivity|].
+  cbn [tags_ops map app e2s_run e2s_step tagstack started now fst snd]. apply IH.
+Qed.
+Lemma expected_tags chs : forall b c nw st h,
+  expected (SS b c None nw st) (tags_ops chs ++ h) = expected (SS b (tags_wanted chs c) None nw st) h.
+Proof.
+  induction chs as [|ch chs IH]; intros b c nw st h; [reflexivity|].
+  cbn [tags_ops map app expected sstep ss_test_tags ss_started ss_run_tags ss_now ss_start fst snd].
+  fold (tags_ops chs). rewrite IH. cbn [tags_wanted fold_left]. destruct (expected _ h). reflexivity.
+Qed.
+Lemma tags_after_wanted chs : forall a b, same_set a b -> same_set (tags_after chs a) (tags_wanted chs b).
+Proof.
+  induction chs as [|ch chs IH]; intros a b H; [exact H|]. cbn [tags_after tags_wanted fold_left].
+  apply IH. apply same_set_change. exact H.
+Qed.
+
+(* tags() calls, then a startTest that starts the run itself: the test's final status carries the tags those
+   calls leave - sent and demanded; tags() calls, then an explicit startTestRun: no tags - sent and demanded *)
+Theorem tags_before_start chs i h :
+  (exists rest, mid_stream (tags_ops chs ++ OStartTest i :: OOutcome AddSuccess i None None :: h)
+                = MStartRun :: status_ev i Inprogress None (Some wall)
+                  :: status_ev i Success (Some (tags_after chs [])) (Some wall) :: rest)
+  /\ (exists xs, fst (expected ss0 (tags_ops chs ++ OStartTest i :: OOutcome AddSuccess i None None :: h))
+                 = XStartRun :: XStatus i Inprogress None wall
+                   :: XStatus i Success (Some (tags_wanted chs [])) wall :: xs)
+  /\ same_set (tags_after chs []) (tags_wanted chs [])
+  /\ (exists rest, mid_stream (tags_ops chs ++ OStartRun :: OStartTest i :: OOutcome AddSuccess i None None :: h)
+                   = MStartRun :: status_ev i Inprogress None (Some wall)
+                     :: status_ev i Success (Some []) (Some wall) :: rest)
+  /\ (exists xs, fst (expected ss0 (tags_ops chs ++ OStartRun :: OStartTest i :: OOutcome AddSuccess i None None :: h))
+                 = XStartRun :: XStatus i Inprogress None wall :: XStatus i Success (Some []) wall :: xs).
+Proof.
+  unfold mid_stream, e2s0, ss0. rewrite !e2s_run_tags, !expected_tags.
+  pose proof (tags_after_wanted chs [] [] (same_set_refl [])) as Hs. revert Hs.
+  generalize (tags_after chs []) as ta, (tags_wanted chs []) as tw. intros ta tw Hs.
+  split; [|split; [|split; [|split]]].
+  - eexists. cbn [e2s_run e2s_step ensure_started started start_run tagstack now fst snd app current_tags convert now_ts].
+    rewrite word_table. reflexivity.
+  - eexists. cbn. reflexivity.
+  - exact Hs.
+  - eexists. cbn [e2s_run e2s_step ensure_started started start_run tagstack now fst snd app current_tags convert now_ts].
+    rewrite word_table. reflexivity.
+  - eexists. cbn. reflexivity.
 Qed.
